@@ -517,3 +517,39 @@ class C20(LineCheck):
         # every read on its own prefix with the scripts removed (is it the parsing or the handler actions?)
         out += [" ".join(ops[:k]) for k in range(1, min(len(ops), 40) + 1) if ops[k - 1][0] == "F"]
         return out
+
+
+# ---- independent instances in different loop threads on the real kernel (TSan): "to the handler of the watch whose wd it
+# carries and to no other" also when several threads read their instances at the same time ----
+def _inotify_threads_stage(self, ctx):
+    import c14
+    helper = c14.C14()
+    helper.d = os.path.join(ctx.work, "tsan_inotify")
+    ok, out = vlib.cc_build(helper.d, "tsan_inotify", ["tsan_inotify.c"], vlib.LIB_SRCS,
+                            san_flags=["-fsanitize=thread", "-fno-omit-frame-pointer"])
+    if not ok:
+        return "tsan_inotify does not build: " + out[-600:]
+    for k in range(3):
+        r = helper.run_inotify(ctx.seed * 100 + k)
+        if r["races"]:
+            return "ThreadSanitizer: data race (iv_inotify instances in different threads, INOTIFY %d)\n%s" % (ctx.seed * 100 + k, r["races"][0])
+        if r["foreign"]:
+            return "a watch received %d events that another thread's instance read (INOTIFY %d)" % (r["foreign"], ctx.seed * 100 + k)
+        if not r["complete"]:
+            return "inotify thread program did not finish (rc=%s): %s" % (r["rc"], r["err"])
+    return None
+
+
+_c20_correspond = C20.correspond
+
+
+def _c20_correspond_with_threads(self, ctx, cases):
+    st = _c20_correspond(self, ctx, cases)
+    if len(cases) > 10:
+        why = _inotify_threads_stage(self, ctx)
+        if why:
+            st["crashes"].append((0, why))
+    return st
+
+
+C20.correspond = _c20_correspond_with_threads
